@@ -17,6 +17,14 @@ non-trivial count is over input hashes (same hash as `ctx.case`, so inputs also
 produced by the other generators are not counted twice; at most NT_HASH_CAP hashes
 per campaign are kept).
 
+Reproducibility: campaigns are started under `setarch -R` (no address-space
+randomisation) because libFuzzer's value profile keys features by code addresses; the
+cyclic GC of the campaign process runs by execution count (vk/fuzzrun.py).  With both,
+repeated campaigns give identical corpus / cov / ft for C04, C07, C12, C20; seeded C22
+(and long C07) campaigns still differ by a handful of executions between repetitions
+(one input whose coverage differs; cause not found) - the inputs a campaign records are
+replayable in any case, which is what the verdict rests on.
+
 Also holds what the child side shares: `FuzzCtx` (a Ctx whose `fail` goes to the
 recorder and whose `case` only measures non-triviality) and `examples()` (draw a few
 deterministic examples of a Hypothesis strategy for the seed corpus).
@@ -141,6 +149,28 @@ def available() -> bool:
         return False
 
 
+_NOASLR: list | None = None
+
+
+def no_aslr_prefix() -> list:
+    """`setarch <arch> -R` if it works here, else [].  libFuzzer's value profile (and its
+    memcmp hooks) key features by code addresses, so with address-space randomisation a
+    campaign is not a function of its -seed; without ASLR it is (verified: identical
+    cov/ft/corpus on repetition)."""
+    global _NOASLR
+    if _NOASLR is None:
+        _NOASLR = []
+        exe = shutil.which("setarch")
+        if exe:
+            cand = [exe, os.uname().machine, "-R"]
+            try:
+                if subprocess.run([*cand, "true"], stdout=subprocess.DEVNULL, stderr=subprocess.DEVNULL, timeout=20).returncode == 0:
+                    _NOASLR = cand
+            except Exception:  # noqa: BLE001
+                pass
+    return _NOASLR
+
+
 def campaign_seed(seed: int, prop: str, j: int) -> int:
     s = (seed * 1_000_003 + (j + 1) * 7919 + int(prop[1:]) * 104_729) & 0x7FFFFFFF
     return s or 1  # libFuzzer: -seed=0 means "pick one from the clock"
@@ -211,6 +241,8 @@ def run_fuzz(ctx: Ctx, prop: str, runs: int, jobs: int = MAX_JOBS, verbose: bool
         env = dict(os.environ, PYTHONHASHSEED="0")
         env.setdefault("XKNX_VERIF", "1")
         t0 = time.time()
+        prefix = no_aslr_prefix()
+        value_profile = 1 if prefix else 0  # without a way to switch ASLR off the value profile would make campaigns irreproducible
         for j in range(jobs):
             seeded = j % 2 == 1  # half from an empty corpus, half from the seed corpus
             d = os.path.join(tmp, f"c{j}")
@@ -225,7 +257,7 @@ def run_fuzz(ctx: Ctx, prop: str, runs: int, jobs: int = MAX_JOBS, verbose: bool
                 "log": os.path.join(d, "stderr.log"),
             }
             cmd = [
-                sys.executable, "-m", "vk.fuzzrun", prop,
+                *prefix, sys.executable, "-m", "vk.fuzzrun", prop,
                 "--out", c["out"], "--runs", str(runs), "--known", known, "--verif-seed", str(ctx.seed),
                 "--corpus", os.path.join(d, "corpus"),
             ]
@@ -234,7 +266,7 @@ def run_fuzz(ctx: Ctx, prop: str, runs: int, jobs: int = MAX_JOBS, verbose: bool
             cmd += [
                 "--",
                 f"-seed={c['seed']}", f"-runs={runs}", f"-max_len={MAX_LEN.get(prop, 512)}",
-                "-timeout=120", "-rss_limit_mb=4096", "-use_value_profile=1", "-print_final_stats=1",
+                "-timeout=120", "-rss_limit_mb=4096", f"-use_value_profile={value_profile}", "-print_final_stats=1",
                 f"-artifact_prefix={os.path.join(d, 'artifacts')}/",
             ]
             c["logf"] = open(c["log"], "w")
@@ -318,6 +350,7 @@ def run_fuzz(ctx: Ctx, prop: str, runs: int, jobs: int = MAX_JOBS, verbose: bool
         note = {
             "engine": "atheris (libFuzzer), xknx instrumented only, oracle inside the target",
             "campaigns": len(per),
+            "reproducibility": "ASLR off (setarch -R), -use_value_profile=1" if prefix else "setarch -R not usable here: -use_value_profile=0",
             "runs_per_campaign": runs,
             "executions": tot_exec,
             "nontrivial_executions": tot_nt,
